@@ -251,10 +251,10 @@ def state_types(sc) -> tuple[dict, dict, dict]:
         ivars["weight"] = "float"
         defaults["weight"] = 0.0
     for name in truth.scalar_names(sc):
-        if name != "w" or ibm.get("w_in_state"):
-            if name not in ivars and sc["flow"].get("scalars_in_state", True):
-                ivars[name] = "float"
-                defaults[name] = 0.0
+        # LADiM copies every extra forcing variable into the state: it has to be declared there
+        if name not in ivars:
+            ivars[name] = "float"
+            defaults[name] = 0.0
     if "lon" in sc["output"].get("ivars", {}) or "lat" in sc["output"].get("ivars", {}):
         # LADiM writes lon/lat from state variables it then overwrites (examples/latlon)
         for name in ("lon", "lat"):
